@@ -798,13 +798,40 @@ class Context:
                 # characters alone
                 return '"' + text.translate(_JSON_ESCAPES) + '"'
 
+            # The third argument asks for line breaks and indentation: up to ten
+            # spaces for a number, up to ten characters of a string
+            space = args[2] if len(args) > 2 else UNDEFINED
+            gap = ""
+            if isinstance(space, str):
+                gap = space[:10]
+            elif (
+                isinstance(space, (int, float))
+                and not isinstance(space, bool)
+                and space >= 1
+            ):
+                gap = " " * int(min(space, 10))
+
+            def layout(brackets, items, indent):
+                # Members on one line, or one per line when a gap is asked for
+                if not items or not gap:
+                    return brackets[0] + ",".join(items) + brackets[1]
+                inner = "\n" + indent + gap
+                return (
+                    brackets[0]
+                    + inner
+                    + ("," + inner).join(items)
+                    + "\n"
+                    + indent
+                    + brackets[1]
+                )
+
             # Objects and arrays being serialised right now (the path from the root)
             open_holders = []
 
             # JSON text of a JS value; None where there is none (undefined,
             # functions): the holder decides what that means - null in an array,
             # no property in an object, undefined at the root
-            def serialize(v):
+            def serialize(v, indent=""):
                 if v is NULL:
                     return "null"
                 if isinstance(v, bool):
@@ -825,14 +852,15 @@ class Context:
                 try:
                     if isinstance(v, JSArray):
                         # For arrays, undefined becomes null
-                        return "[" + ",".join(serialize(e) or "null" for e in v._elements) + "]"
+                        items = [serialize(e, indent + gap) or "null" for e in v._elements]
+                        return layout("[]", items, indent)
                     # For objects, skip undefined values
                     members = []
                     for k, val in v._properties.items():
-                        text = serialize(val)
+                        text = serialize(val, indent + gap)
                         if text is not None:
-                            members.append(quote(k) + ":" + text)
-                    return "{" + ",".join(members) + "}"
+                            members.append(quote(k) + (": " if gap else ":") + text)
+                    return layout("{}", members, indent)
                 finally:
                     open_holders.pop()
 
